@@ -482,6 +482,7 @@ def run(fx, chk, tier):
             groups.setdefault(key, []).append(cell)
         s2_bad = s5_bad = None
         unk2 = unk5 = None       # constructs outside the extractor's vocabulary (comparison would be meaningless)
+        pre_unk = model_vocab_issue(fx, m, fx.adts.get(ty))
         lvl = LEVELS.get(s, 1)
         for key, cells in sorted(groups.items()):
             ncells += len(cells)
@@ -521,6 +522,8 @@ def run(fx, chk, tier):
         else:
             # A difference that involves a construct the extractor has no vocabulary for says nothing about the code:
             # the box is recorded as not compared (evidence: counts["S:boxes not compared"]) instead of reported.
+            unk2 = unk2 or pre_unk
+            unk5 = unk5 or pre_unk
             if s2_bad is not None and unk2:
                 chk.note("%s: size agreement not decided (the extraction contains `%s`, which is outside the layout vocabulary)" % (s, unk2))
                 chk.ok("S2", s + "|size", "not compared: `%s` is outside the layout vocabulary" % unk2, wsite)
